@@ -390,6 +390,16 @@ def judge(ctx, idx, case):
             problems.append({"pair": "preserving.route_twin", "problem": "the same statements made through another route of the API (%s) build different content"
                              % ", ".join(sorted(set(changed))), "diff": strict.diff(strict.strict(d), strict.strict(tw.doc), 4)})
         compare_records(ctx, d, tw.doc, r, problems)
+    if idx % 40 == 7:
+        # ... and the same program run by another interpreter process (another string-hash seed), handed over by pickle
+        there = common.build_elsewhere(case["ops"])
+        if there is not None:
+            eq = compare(ctx, "preserving.built_in_another_process", d, there.doc, problems)
+            ctx.count("variant.built_in_another_process.%s" % ("equivalent" if eq else "NOT-equivalent"))
+            if not eq:
+                problems.append({"pair": "preserving.built_in_another_process", "problem": "the same program run in another process and unpickled here "
+                                 "gives a document that is not content-equivalent", "diff": strict.diff(strict.strict(d), strict.strict(there.doc), 4)})
+            compare_records(ctx, d, there.doc, r, problems)
     for kind in case["preserving"]:
         try:
             v = variant_preserving(kind, od, d, r)
